@@ -1,3 +1,5 @@
+//go:build drv_robust || drv_all
+
 package main
 
 import (
